@@ -13,6 +13,14 @@ Cases (all on real files under <worktree>/.work/, removed afterwards):
              a fresh instance of the class parses the content under the extension / data type ext through the
              entry point (3 = get_parsed_instance: class ignored); result or exception, and whether the
              instance's ballots / edges are still empty afterwards.  Every (class, extension) pair, wrong and right.
+  c10.seq    payload = (class ext contentA contentB wrong_type)  one scripted sequence in ONE worker call (object lifetime,
+             aliasing, purity): for each of the four entry points A is read into one object, B (same ids / ballots /
+             node pairs, other values) into another, the first object is looked at again, the second is scribbled
+             over, both contents are read again; one object: full parse of A, a parse that must be rejected (the
+             object must hold exactly what it held), header_only parse of B (no ballot added or removed, header of
+             B); fresh object: rejected parse (still empty), header_only parse; parse_lines on the caller's list of
+             lines (list untouched); parse_str(content, None).  Every dump is compared with the model's parse of the
+             content it should show.
   c10.name   payload = (class directory base_name autocorrect header_only bare)  a small file of the class under a file
              name with 0-3+ dots, upper case, spaces, non-ASCII characters, in a directory with or without dots;
              parse_file(path), parse_url(file:// + pathname2url(path)), get_parsed_instance(path) against the model's
@@ -62,7 +70,7 @@ EXHAUSTIVE = {"quick": "every (class, extension in soc soi toc toi cat wmd + 8 o
                        "x 3 contents (gate matrix); every terminator x {no padding, padding} x {no gaps, gaps} uniform "
                        "style on 3 small instances per class x header_only x autocorrect",
               "thorough": "the same, on 12 small instances per class"}
-THEOREMS_FOR_OP = {"c10.name": "C10_declared_type (splitext_ext / url_ext), C10_gate, C10_dispatch", "c10.large": "C10_entrypoints_text, C10_splitters (no size bound in either)", "c10.entry": "C10_entrypoints, C10_splitters, C10_lines_equiv, C10_header_only, C10_dispatch",
+THEOREMS_FOR_OP = {"c10.seq": "C10_entrypoints_text, C10_gate, C10_header_only (each result is a function of the content alone)", "c10.name": "C10_declared_type (splitext_ext / url_ext), C10_gate, C10_dispatch", "c10.large": "C10_entrypoints_text, C10_splitters (no size bound in either)", "c10.entry": "C10_entrypoints, C10_splitters, C10_lines_equiv, C10_header_only, C10_dispatch",
                    "c10.gate": "C10_gate, C10_gate_get, C10_dispatch", "c10.raw": "(model correspondence only)"}
 TRUSTED = ["modelled: PrefLibInstance.parse_lines / parse_file / parse_str / parse_url, get_parsed_instance, the "
            "three type_validator methods, on top of the C01 / C08 / C09 file models; os.path.splitext / "
@@ -444,11 +452,165 @@ def impl_name(c, d):
     return {"path": T(path), "url": T(url), "content": T(content), "res": {str(e): run(e) for e in (0, 2, 3)}}
 
 
+# ---- sequences inside one worker call: several objects alive, one object parsed repeatedly (notes/round5_lessons.md)
+def pair_contents(cl, ext, rng):
+    """two well-formed contents over the SAME ids / ballots / node pairs with different values (names, counts,
+    multiplicities, weights, title): anything shared between two objects shows up as a wrong value"""
+    m = rng.randint(2, 5)
+    ids = sorted(rng.sample(range(1, 40), m))
+    hdr = lambda v, dt: ("# FILE NAME: %s.%s\n# TITLE: title %s\n# DESCRIPTION: \n# DATA TYPE: %s\n# MODIFICATION TYPE: "
+                         "original\n# RELATES TO: \n# RELATED FILES: \n# PUBLICATION DATE: 2020-0%d-01\n"
+                         "# MODIFICATION DATE: \n") % (v, dt, v, dt, 1 if v == "A" else 2)
+    names = lambda v: "".join("# ALTERNATIVE NAME %d: %s%d\n" % (a, v, a) for a in ids)
+    out = []
+    if cl == 0:
+        orders = []
+        while len(orders) < rng.randint(2, 4):
+            a = rng.sample(ids, rng.randint(2, m) if ext in ("soi", "toi") else m)
+            o, k = [], 0
+            while k < len(a):
+                w = rng.randint(1, 2) if ext in ("toc", "toi") else 1
+                o.append(a[k:k + w])
+                k += w
+            if o not in orders:
+                orders.append(o)
+        for v, base in (("A", 10), ("B", 50)):
+            mults = [base - j for j in range(len(orders))]
+            out.append(hdr(v, ext) + "# NUMBER ALTERNATIVES: %d\n# NUMBER VOTERS: %d\n# NUMBER UNIQUE ORDERS: %d\n" % (
+                m, sum(mults), len(orders)) + names(v) + "".join(
+                "%d: %s\n" % (mu, ", ".join(_cls_str(c_) for c_ in o)) for mu, o in zip(mults, orders)))
+    elif cl == 1:
+        k = rng.randint(2, 3)
+        ballots = []
+        while len(ballots) < rng.randint(2, 4):
+            b = [[] for _ in range(k)]
+            for a in rng.sample(ids, rng.randint(0, m)):
+                b[rng.randrange(k)].append(a)
+            if b not in ballots:
+                ballots.append(b)
+        for v, base in (("A", 10), ("B", 50)):
+            mults = [base - j for j in range(len(ballots))]
+            out.append(hdr(v, "cat") + "# NUMBER ALTERNATIVES: %d\n# NUMBER VOTERS: %d\n# NUMBER UNIQUE PREFERENCES: %d\n"
+                       "# NUMBER CATEGORIES: %d\n" % (m, sum(mults), len(ballots), k)
+                       + "".join("# CATEGORY NAME %d: %scat%d\n" % (j + 1, v, j + 1) for j in range(k)) + names(v)
+                       + "".join("%d: %s\n" % (mu, ", ".join("{}" if not c_ else _cls_str(c_) for c_ in b))
+                                 for mu, b in zip(mults, ballots)))
+    else:
+        pairs = []
+        while len(pairs) < rng.randint(2, 5):
+            e_ = (rng.choice(ids), rng.choice(ids))
+            if e_ not in pairs:
+                pairs.append(e_)
+        pairs.sort()
+        for v, base in (("A", 1.5), ("B", -40.25)):
+            out.append(hdr(v, "wmd") + "# NUMBER ALTERNATIVES: %d\n# NUMBER EDGES: %d\n" % (m, len(pairs)) + names(v)
+                       + "".join("%d, %d, %r\n" % (a, b, base + j) for j, (a, b) in enumerate(pairs)))
+    return out
+
+
+def poison(inst):
+    """scribble over everything a parsed instance holds (a later look at ANOTHER instance must not notice)"""
+    O, C, M = _cls()
+    junk = ((987654321,),)
+    if isinstance(inst, (O, C)):
+        for k in list(inst.multiplicity):
+            inst.multiplicity[k] = 777
+        inst.multiplicity[junk] = 5
+        getattr(inst, "orders", inst.preferences).append(junk)
+        inst.preferences.reverse()
+        if isinstance(inst, C):
+            inst.categories_name[99] = "junk"
+    else:
+        for k in list(inst.weights):
+            inst.weights[k] = -777.0
+        inst.weights[(987654321, 1)] = 3.0
+        for n in list(inst.node_mapping):
+            inst.node_mapping[n].add(987654321)
+        inst.node_mapping[987654321] = {1}
+    for k in list(inst.alternatives_name):
+        inst.alternatives_name[k] = "junk"
+    inst.alternatives_name[987654321] = "junk"
+    inst.reserved_names.add("junk")
+
+
+def impl_seq(c, d):
+    import urllib.request
+    cl, ext, A, B, wrong = c["payload"]
+    ext, A, B, wrong = U(ext), U(A), U(B), U(wrong)
+    paths = {}
+    for nm, text, x in (("A", A, ext), ("B", B, ext), ("W", A, wrong)):
+        os.makedirs(os.path.join(d, nm))
+        paths[nm] = os.path.join(d, nm, "s." + x)
+        _write_raw(paths[nm], text)
+    texts = {"A": A, "B": B, "W": A}
+    exts = {"A": ext, "B": ext, "W": wrong}
+
+    def call(inst, e, which, **kw):
+        """parse content `which` into inst (e < 3) or through get_parsed_instance (e = 3: returns the new object)"""
+        if e == 3:
+            from preflibtools.instances import get_parsed_instance
+            return get_parsed_instance(paths[which], **kw)
+        if e == 0:
+            inst.parse_file(paths[which], **kw)
+        elif e == 1:
+            inst.parse_str(texts[which], exts[which], **kw)
+        else:
+            inst.parse_url("file://" + urllib.request.pathname2url(paths[which]), **kw)
+        return inst
+
+    new = _cls()[cl]
+    obs = {}
+    for e in range(4):
+        k = str(e)
+        # (a) / (c): two objects alive, earlier object re-read, returned objects poisoned
+        oa = call(new(), e, "A")
+        obs["a1_" + k] = dump(oa)
+        ob = call(new(), e, "B")
+        obs["b1_" + k] = dump(ob)
+        obs["a_after_b_" + k] = dump(oa)
+        poison(ob)
+        obs["a_after_poison_" + k] = dump(oa)
+        obs["b2_" + k] = dump(call(new(), e, "B"))
+        obs["a2_" + k] = dump(call(new(), e, "A"))
+        obs["a_end_" + k] = dump(oa)
+        if e == 3:
+            continue
+        # (b) one object: full parse, rejected parse, header-only parse
+        o = call(new(), e, "A")
+        obs["rej_" + k] = guarded(lambda: dump(call(o, e, "W")))
+        obs["after_rej_" + k] = dump(o)
+        obs["ho_" + k] = guarded(lambda: dump(call(o, e, "B", header_only=True)))
+        o2 = new()
+        obs["rej_fresh_" + k] = guarded(lambda: dump(call(o2, e, "W")))
+        obs["rej_fresh_empty_" + k] = is_empty(o2)
+        obs["ho_fresh_" + k] = guarded(lambda: dump(call(o2, e, "B", header_only=True)))
+    # (d) the caller's list of lines
+    lines = A.splitlines(True)
+    before = list(lines)
+    o = new()
+    o.data_type = ext
+    o.parse_lines(lines)
+    obs["pl"] = dump(o)
+    obs["pl_same"] = int(len(lines) == len(before) and all(x is y for x, y in zip(lines, before)))
+    # (e) data_type None
+    o = new()
+    obs["none"] = guarded(lambda: dump(call_none(o, A)))
+    obs["none_empty"] = is_empty(o)
+    return {"obs": obs}
+
+
+def call_none(o, text):
+    o.parse_str(text, None)
+    return o
+
+
 def impl(c):
     op, pl = c["op"], c["payload"]
     os.makedirs(WORK, exist_ok=True)
     d = tempfile.mkdtemp(prefix="c10_", dir=WORK)
     try:
+        if op == "c10.seq":
+            return impl_seq(c, d)
         if op == "c10.large":
             return impl_large(c, d)
         if op == "c10.name":
@@ -484,6 +646,14 @@ def impl(c):
 # ------------------------------------------------------------------------------------------------ model side
 def oracle_requests(c, r):
     op, pl = c["op"], c["payload"]
+    if op == "c10.seq":
+        cl, ext, A, B, wrong = pl
+        reqs = []
+        for e in range(3):
+            reqs += [("c10.parse", [cl, e, ext, 0, 0, A]), ("c10.parse", [cl, e, ext, 0, 0, B]),
+                     ("c10.parse", [cl, e, ext, 0, 1, B]), ("c10.parse", [cl, e, wrong, 0, 0, A])]
+        reqs += [("c10.get", [ext, 0, 0, A]), ("c10.get", [ext, 0, 0, B])]
+        return reqs
     if op == "c10.name":
         if not isinstance(r, dict) or "path" not in r:
             return []
@@ -592,8 +762,95 @@ def judge_name(c, r, mres):
     return None
 
 
+def _no_id(cn):
+    """canon() without the fields every entry point sets before the gate (file_name, data_type)"""
+    cn = [list(x) if isinstance(x, list) else x for x in cn]
+    f = list(cn[1])
+    f[0], f[3] = [], []
+    cn[1] = f
+    return cn
+
+
+def _ballot_part(cn):
+    return [cn[6], cn[7]] if cn[0] == 0 else [cn[8], cn[9]] if cn[0] == 1 else [cn[3], cn[4]]
+
+
+def judge_seq(c, r, mres):
+    cl, ext, A, B, wrong = c["payload"]
+    if not isinstance(r, dict) or "obs" not in r or len(mres) != 14:
+        return {"kind": "broken-correspondence", "reason": "implementation side returned %r" % (r,)}
+    obs = r["obs"]
+    mA = [mres[4 * e] for e in range(3)] + [mres[12]]
+    mB = [mres[4 * e + 1] for e in range(3)] + [mres[13]]
+    mBho = [mres[4 * e + 2] for e in range(3)]
+    mW = [mres[4 * e + 3] for e in range(3)]
+    for e in range(4):
+        if mA[e][0] != 0 or mB[e][0] != 0 or canon(mA[e][1], True) == canon(mB[e][1], True):
+            return {"kind": "broken-correspondence", "reason": "generated pair of contents is not usable: %r" % (mA[e][:1],)}
+        wantA, wantB = canon(mA[e][1], True), canon(mB[e][1], True)
+        k = str(e)
+        for key, want, what in (("a1_", wantA, "content A"), ("b1_", wantB, "content B read while the object of A is alive"),
+                                ("a_after_b_", wantA, "the object of A, looked at again after B was read into another object"),
+                                ("a_after_poison_", wantA, "the object of A after the object of B was scribbled over"),
+                                ("b2_", wantB, "content B read again after an earlier object of B was scribbled over"),
+                                ("a2_", wantA, "content A read a second time into a new object"),
+                                ("a_end_", wantA, "the first object of A at the end of the sequence")):
+            got = canon(obs[key + k])
+            if got != want:
+                j = next((j for j, (x, y) in enumerate(zip(got, want)) if x != y), None)
+                return "%s, %s: field %r is %s, the content says %s" % (
+                    ENTRY_NAMES[e], what, j, _short(got[j] if j is not None else got), _short(want[j] if j is not None else want))
+        if e == 3:
+            continue
+        if mW[e] != [1, proto.E_TYPE]:
+            return {"kind": "broken-correspondence", "reason": "the wrong type %r is not wrong for the model" % U(wrong)}
+        if obs["rej_" + k][:2] != [1, proto.E_TYPE]:
+            return "%s with the declared type %r on a used %s: %s (TypeError expected)" % (
+                ENTRY_NAMES[e], U(wrong), CLASSES[cl], _short(obs["rej_" + k]))
+        if _no_id(canon(obs["after_rej_" + k])) != _no_id(wantA):
+            return "%s: after the rejected parse the instance differs from what it held before: %s vs %s" % (
+                ENTRY_NAMES[e], _short(_no_id(canon(obs["after_rej_" + k]))), _short(_no_id(wantA)))
+        if obs["rej_fresh_" + k][:2] != [1, proto.E_TYPE] or obs["rej_fresh_empty_" + k] != 1:
+            return "%s: rejected parse on a fresh instance: %s, empty afterwards: %r" % (
+                ENTRY_NAMES[e], _short(obs["rej_fresh_" + k]), obs["rej_fresh_empty_" + k])
+        wantH = canon(mBho[e][1], True)
+        got = canon_res(obs["ho_fresh_" + k])
+        if got != [0, wantH]:
+            return "%s: header_only parse after a rejected parse on the same (still empty) instance: %s, the header says %s" % (
+                ENTRY_NAMES[e], _short(got), _short(wantH))
+        # header_only on an instance that already holds A: no ballot / edge is added or removed, the header is B's
+        got = canon_res(obs["ho_" + k])
+        if got[0] != 0:
+            return "%s: header_only parse on a used instance raised %s" % (ENTRY_NAMES[e], _short(got))
+        if _ballot_part(got[1]) != _ballot_part(wantA):
+            return "%s: header_only=True on an instance holding A changed its ballots / edges: %s vs %s" % (
+                ENTRY_NAMES[e], _short(_ballot_part(got[1])), _short(_ballot_part(wantA)))
+        hg, hw = list(got[1]), list(wantH)
+        for cn in (hg, hw):
+            if cn[0] == 0:
+                cn[6], cn[7] = [], []
+            elif cn[0] == 1:
+                cn[8], cn[9] = [], []
+            else:
+                cn[3], cn[4] = [], []
+        if hg != hw:
+            j = next((j for j, (x, y) in enumerate(zip(hg, hw)) if x != y), None)
+            return "%s: header_only=True on a used instance: header field %r is %s, the header of B says %s" % (
+                ENTRY_NAMES[e], j, _short(hg[j] if j is not None else hg), _short(hw[j] if j is not None else hw))
+    if canon(obs["pl"]) != canon(mA[0][1], True):
+        return "parse_lines on the caller's list of lines: %s, the content says %s" % (_short(canon(obs["pl"])), _short(canon(mA[0][1], True)))
+    if obs["pl_same"] != 1:
+        return "parse_lines modified the list of lines it was given"
+    if obs["none"][:2] != [1, proto.E_TYPE] or obs["none_empty"] != 1:
+        return "parse_str(content, None): %s, instance empty afterwards: %r (TypeError expected: None is no data type of the class)" % (
+            _short(obs["none"]), obs["none_empty"])
+    return None
+
+
 def judge(c, r, mres):
     op, pl = c["op"], c["payload"]
+    if op == "c10.seq":
+        return judge_seq(c, r, mres)
     if op == "c10.name":
         return judge_name(c, r, mres)
     if op == "c10.large":
@@ -677,6 +934,8 @@ def judge(c, r, mres):
 
 
 def nontrivial(c, r, m):
+    if c["op"] == "c10.seq":
+        return True
     if c["op"] == "c10.name":
         return U(c["payload"][2]).count(".") >= 2 or bool(c["payload"][1])
     if c["op"] == "c10.large":
@@ -691,6 +950,9 @@ def nontrivial(c, r, m):
 
 def stats(c, r, m):
     op, pl = c["op"], c["payload"]
+    if op == "c10.seq":
+        return ["seq class=%s (two objects alive x 4 entry points, poison, rejected + header_only on one object, "
+                "parse_lines list, data_type None)" % CLASSES[pl[0]][:3]]
     if op == "c10.name":
         base, reldir = U(pl[2]), U(pl[1])
         lab = ["name dots in base name=%d%s" % (min(base.count("."), 3), "+" if base.count(".") > 3 else "")]
@@ -741,6 +1003,9 @@ def stats(c, r, m):
 
 def describe(c):
     op, pl = c["op"], c["payload"]
+    if op == "c10.seq":
+        return {"op": op, "class": CLASSES[pl[0]], "extension": U(pl[1]), "content A": U(pl[2]), "content B": U(pl[3]),
+                "wrong type used for the rejected parse": U(pl[4])}
     if op == "c10.name":
         cl, reldir, base, ac, ho, bare = pl
         return {"op": op, "class": CLASSES[cl], "directory (below the scratch directory)": U(reldir), "base name": U(base),
@@ -762,7 +1027,7 @@ def describe(c):
 
 def shrink(c):
     op, pl = c["op"], c["payload"]
-    if op in ("c10.large", "c10.name"):
+    if op in ("c10.large", "c10.name", "c10.seq"):
         return
     if op == "c10.entry":
         cl, ipl, ac, ho, styles = pl
@@ -902,6 +1167,25 @@ def generate(tier, seed):
     for cl in range(3):                            # parse_str with odd data types
         for dt in ["soc ", " cat", "Cat", "wmd\n", "toi.soc", "c", "soc,soi", "\u0441at"]:
             out.append(case("c10.gate", [cl, 1, T(dt), T(CONTENTS[cl]), 0, 0], gate=2))
+    # every substring of the valid names, their concatenations, case and blank variants, for the gate of every class
+    valid = ORD_EXT + ["cat", "wmd"]
+    odd = set()
+    for v in valid:
+        odd |= {v[i:j] for i in range(len(v)) for j in range(i, len(v) + 1)}          # incl. "" and v itself
+        odd |= {v.upper(), v.capitalize(), " " + v, v + " ", "\t" + v, v + "\n", v + v, "." + v, v + "."}
+    odd |= {a + b for a in valid for b in valid} | {"soc,soi,toc,toi", "('cat')", "['soc', 'soi', 'toc', 'toi']"}
+    for cl in range(3):
+        for n, dt in enumerate(sorted(odd)):
+            out.append(case("c10.gate", [cl, 1, T(dt), T(CONTENTS[cl]), 0, (n + cl) % 2], gate=3))
+            if dt and all(ch.isalnum() for ch in dt):
+                out.append(case("c10.gate", [cl, (0, 2, 3)[(n + cl) % 3], T(dt), T(CONTENTS[cl]), 0, n % 2], gate=3))
+    # ---- sequences inside one case: several objects alive, one object parsed repeatedly (round-5 lessons)
+    for n in range(36 if quick else 400):
+        cl = n % 3
+        ext = EXT_OF_CLASS[cl][(n // 3) % len(EXT_OF_CLASS[cl])]
+        A, B = pair_contents(cl, ext, rng)
+        wrong = [["cat", "wmd"], ["soc", "wmd", "toi"], ["cat", "toc"]][cl][(n // 3) % 2]
+        out.append(case("c10.seq", [cl, T(ext), T(A), T(B), T(wrong)], seq=1))
     # ---- exhaustive uniform styles on small instances
     nsmall = 3 if quick else 12
     for cl in range(3):
